@@ -419,6 +419,10 @@ def transitivity_formula(ctx, prog, flows):
             else:
                 ctx.undecided("R-C11-10", "quotient|%d" % n, "the quotient returned by transitivity is not plain arithmetic over two sums of recognised per-node terms (terms: %s); its form is not decided" % sorted(kinds.values()), loc_str(st.span))
             continue
+        for (te_, v_, a_) in controlling_atoms(fl, st.bb):
+            if isinstance(te_, tuple) and te_[0] == "binop" and te_[1] in ("Eq", "Ne") and desc_mentions(te_, lambda x: x[0] == "const" and re.match(r"const 0(_|\.0|f)", x[1]) is not None):
+                zero_here = (te_[1] == "Eq") == bool(v_)
+                ctx.require(not zero_here, "R-C11-10", "arm|%d" % n, "transitivity divides on the arm where the triangle sum is not zero", "transitivity takes the quotient on the arm where the triangle sum IS zero and returns 0 where it is not: every graph with a triangle gets transitivity 0", loc_str(st.span))
         ok = matches_form(cols, lambda pt: pt[0] / pt[1], grid_s)
         ctx.require(ok, "R-C11-10", "quotient|%d" % n, "transitivity returns sum(triangle field) / sum(d(d-1))",
                     "transitivity does not return sum(triangle field) / sum(d(d-1)): at (sum of fields, sum of d(d-1)) = %s it evaluates to %s instead of %s" % (grid_s[0], round(cols[0], 6), round(grid_s[0][0] / grid_s[0][1], 6)), loc_str(st.span))
